@@ -55,10 +55,11 @@ class GetFromPaths(GetByFinder):
         if not sid_path:
             debug(f'Given Sid "{sid}" has no path at config {self.config}. Cannot get data.')
             return {}
-        data_path = get_data_json_path(sid_path)
         data: dict[str, Any] = {}
+        data_path = None
         try:
-            # (exists() itself may fail, e.g. when the name of the sidecar would be too long for the file system)
+            # (the configured location function and exists() may fail themselves, e.g. when a name is too long for the file system)
+            data_path = get_data_json_path(sid_path)
             if data_path.exists():
                 with data_path.open() as f:
                     data = json.load(f) or {}
